@@ -52,6 +52,11 @@ func DecodeMap(bytes []byte) (*AmmoConfig, error) {
 	if err != nil {
 		return nil, fmt.Errorf("%s, config.DecodeAndValidate, %w", op, err)
 	}
+	for _, sc := range ammoCfg.Scenarios {
+		if sc.Weight < 0 {
+			return nil, fmt.Errorf("%s, scenario %s has negative weight %d", op, sc.Name, sc.Weight)
+		}
+	}
 	return &ammoCfg, nil
 }
 
